@@ -47,7 +47,7 @@ def sortDesc : Votes → Votes
 /-- `util.sorted_votes(votes, descending=False)` (stable ascending) -/
 def insertAsc (x : Cand × Rat) : Votes → Votes
   | [] => [x]
-  | y :: ys => if y.2 ≤ x.2 then y :: insertAsc x ys else x :: y :: ys
+  | y :: ys => if y.2 < x.2 then y :: insertAsc x ys else x :: y :: ys
 
 def sortAsc : Votes → Votes
   | [] => []
